@@ -19,7 +19,8 @@
      t = "pr"     blocks of 256 numbers below MaxPr: prime[i], safe[i]                             (trial division)
      t = "rpir"   start = k   <= MaxStart for len in 1..start+1: the primes RandomPrimeInRange(start, len) may return
      t = "spsize" bits = k    in 8..MaxBits: the safe primes of exactly k bits
-     t = "gexp"   P = k safe prime <= MaxGroup: g, h of zkproof.BuildGroup(P) and vg[i], vh[i] = base^e, e = 1-q..q-1 *)
+     t = "gexp"   P = k safe prime <= MaxGroup: built (FALSE for P = 5), g, h of zkproof.BuildGroup(P) as found in the tree under check
+                  (GroupGens, contract checked by LemmaGroup) and vg[i], vh[i] = base^e, e = 1-q..q-1 *)
 EXTENDS NumTheory, Json
 
 CONSTANTS MaxLeg, MaxJac, MaxInv, MaxSqrt, MaxCrt, MaxPow, PowExp, MaxFM, FMDense, MaxPr, MaxStart, MaxBits, MaxGroup
@@ -81,10 +82,13 @@ EmitRpir(start) == \A len \in 1..(start + 1) :
                       Emit([t |-> "rpir", start |-> start, len |-> len, primes |-> PrimesInRange(start, len)])
 RowSpSize(bits) == [t |-> "spsize", bits |-> bits, v |-> { p \in Pow2(bits - 1)..(Pow2(bits) - 1) : IsSafePrime(p) }]
 
-RowGroup(P) == LET q == GroupOrder(P) g == GroupG(P) h == GroupH(P) IN
-               [t |-> "gexp", gp |-> P, gq |-> q, g |-> g, h |-> h, e0 |-> 1 - q,
-                vg |-> [i \in 1..(2 * q - 1) |-> GroupExp(g, i - q, q, P)],
-                vh |-> [i \in 1..(2 * q - 1) |-> GroupExp(h, i - q, q, P)]]
+RowGroup(P) == LET q == GroupOrder(P) IN
+               IF ~GroupBuildable(P)
+               THEN [t |-> "gexp", gp |-> P, gq |-> q, built |-> FALSE, g |-> 0, h |-> 0, e0 |-> 0, vg |-> <<>>, vh |-> <<>>]
+               ELSE LET g == GroupG(P) h == GroupH(P) IN
+                    [t |-> "gexp", gp |-> P, gq |-> q, built |-> TRUE, g |-> g, h |-> h, e0 |-> 1 - q,
+                     vg |-> [i \in 1..(2 * q - 1) |-> GroupExp(g, i - q, q, P)],
+                     vh |-> [i \in 1..(2 * q - 1) |-> GroupExp(h, i - q, q, P)]]
 
 EmitRows == /\ ((k <= MaxLeg /\ k % 2 = 1 /\ IsPrime(k)) => Emit(RowLeg(k)))
             /\ ((k <= MaxJac /\ k % 2 = 1) => Emit(RowJac(k)))
@@ -96,6 +100,6 @@ EmitRows == /\ ((k <= MaxLeg /\ k % 2 = 1 /\ IsPrime(k)) => Emit(RowLeg(k)))
             /\ EmitPr(k)
             /\ (k <= MaxStart => EmitRpir(k))
             /\ ((k >= 8 /\ k <= MaxBits) => Emit(RowSpSize(k)))
-            /\ ((k <= MaxGroup /\ IsSafePrime(k)) => Emit(RowGroup(k)))
+            /\ ((k <= MaxGroup /\ k >= 5 /\ IsSafePrime(k) /\ GroupKnown(k)) => Emit(RowGroup(k)))
             /\ (k = MaxK => Emit([t |-> "end", k |-> k]))
 =============================================================================
